@@ -11,13 +11,13 @@ if [ "$prop" = "replay" ]; then
 fi
 seed="${VERIF_SEED:-1}"
 /verif/build.sh "$prop" >&2 || { echo "build failed" >&2; exit 2; }
-mkdir -p /verif/evidence /verif/replays
+evdir="${VERIF_EVIDENCE_DIR:-/verif/evidence}"; mkdir -p "$evdir" /verif/replays
 level=exploration
 case "$prop" in C09|C10) level=fault_enumeration;; esac
 bins=/verif/bin/archesim
 case "$prop" in C01|C09|C16) bins=/verif/bin/archesim,/verif/bin/archesim,/verif/bin/archesim,/verif/bin/archesim_tiny;; esac
 case "$prop" in
-  C13|C14|C18|C19) exec /verif/bin/archesim special "$prop" -tier "$tier" -seed "$seed" -evidence "/verif/evidence/$prop.json";;
+  C13|C14|C18|C19) exec /verif/bin/archesim special "$prop" -tier "$tier" -seed "$seed" -evidence "$evdir/$prop.json";;
 esac
 exec /verif/bin/archesim run -prop "$prop" -tier "$tier" -seed "$seed" -bins "$bins" -level "$level" \
-  -evidence "/verif/evidence/$prop.json" -known /verif/known_findings.json -out /verif/replays
+  -evidence "$evdir/$prop.json" -known /verif/known_findings.json -out /verif/replays
